@@ -1530,7 +1530,43 @@ def upb_witness(p):
 
 upb_witness.function = "is_unextendible_product_basis"
 
-CLAUSES = {"is_unextendible_product_basis.witness": upb_witness}
+def stateset_mixed_dtype(p):
+    """state-set predicates and the Gram matrix on a list whose vectors have different numpy dtypes (int64 first, then float64, then complex128)"""
+    import toqito.matrix_ops as mo
+    import toqito.matrix_props as mp
+    import toqito.state_props as spr
+
+    d = int(p.get("d", 3))
+    e = np.eye(d)
+    s2 = np.sqrt(2)
+    col = bool(p.get("column"))
+
+    def shape(v):
+        return v.reshape(-1, 1) if col else v
+
+    if d > 2:
+        ortho = [shape(np.rint(e[0]).astype(np.int64)), shape((e[1] + 1j * e[2]) / s2), shape((e[1] - 1j * e[2]) / s2)]
+    else:
+        ortho = [shape(np.rint(e[0]).astype(np.int64)), shape(e[1].astype(float))]
+    over = [shape(np.rint(e[0]).astype(np.int64)), shape(((e[0] + e[1]) / s2).astype(float)), shape((e[0] + 1j * e[1]) / s2)]
+    flat = lambda vs: [np.asarray(v).reshape(-1).astype(complex) for v in vs]  # noqa: E731
+    for name, vs, orth in (("orthonormal", ortho, True), ("overlapping", over, False)):
+        G = np.array([[np.vdot(a, b) for b in flat(vs)] for a in flat(vs)])
+        got = np.asarray(mo.vectors_to_gram_matrix([v.copy() for v in vs]))
+        if got.shape != G.shape or np.max(np.abs(got - G)) > 1e-9:
+            raise Violation("vectors_to_gram_matrix on a %s list of dtypes %s: max deviation %.3g from <v_i, v_j>" % (name, [str(v.dtype) for v in vs], float(np.max(np.abs(got - G))) if got.shape == G.shape else -1))
+        r = bool(spr.is_mutually_orthogonal([v.copy() for v in vs]))
+        if r != orth:
+            raise Violation("is_mutually_orthogonal = %s on the %s list of dtypes %s" % (r, name, [str(v.dtype) for v in vs]))
+        li = bool(mp.is_linearly_independent([v.copy() for v in vs]))
+        exp_li = np.linalg.matrix_rank(np.array(flat(vs))) == len(vs)
+        if li != bool(exp_li):
+            raise Violation("is_linearly_independent = %s on the %s list of dtypes %s (rank %d of %d)" % (li, name, [str(v.dtype) for v in vs], np.linalg.matrix_rank(np.array(flat(vs))), len(vs)))
+
+
+stateset_mixed_dtype.function = "vectors_to_gram_matrix/is_mutually_orthogonal/is_linearly_independent"
+
+CLAUSES = {"is_unextendible_product_basis.witness": upb_witness, "stateset.mixed_dtype": stateset_mixed_dtype}
 for _pred in _ALL:
     for _kind in ("true", "false", "invariant"):
         CLAUSES["%s.%s" % (_pred, _kind)] = _make_clause(_pred, _kind)
@@ -2201,6 +2237,9 @@ def cases(tier, seed):
             for tr in PREDS_X["is_nonnegative"][2]:
                 for v in ("random", "neg-entry"):
                     add("is_nonnegative.invariant", dict(v=v, n=n, cx=False, type=t, seed=seeds[-1], t=tr), "is_nonnegative/%s+%s/%s" % (v, tr, t), n >= 2)
+    for d_ in (2, 3, 4):
+        for colv in (False, True):
+            add("stateset.mixed_dtype", dict(d=d_, column=colv), "state-sets/mixed-dtype-list")
     # unextendible product bases
     for name, size in (("tiles", 5), ("shifts", 4), ("pyramid", 5)):
         add("is_unextendible_product_basis.true", dict(v="upb", upb=name, n=size, cx=False, seed=0), "is_unextendible_product_basis/%s" % name)
